@@ -141,6 +141,10 @@ def evaluate(w, m):
             pid = f"C{i:02d}"
             rc, out = run(f"{env} timeout 600 {w}/target/release/avgmc --property {pid} --tier quick 2>/dev/null | grep -E '^VIOLATION|signature=|^property=|ENGINE' | head -3; echo rc=${{PIPESTATUS[0]}}", f"{w}/mc", timeout=700)
             res.setdefault("log", []).append(pid + " " + out.strip().replace("\n", " | ")[-160:])
+            if "rc=124" in out or "rc=137" in out:
+                res["status"] = "TIMEOUT-OR-KILLED"
+                res["alarms"] = [pid]
+                return res
             if "VIOLATION" in out:
                 sig = re.findall(r"signature=(\S+)", out)
                 alarms.append(pid + ":" + (sig[0] if sig else "?"))
@@ -167,6 +171,11 @@ def main():
     if "--files" in a:
         files = a[a.index("--files") + 1].split(",")
     ms = mutants(files)
+    if "--only-survivors" in a:
+        prev = json.load(open(f"{out_dir}/results.json"))
+        keep = {(x["file"], x["line"], x["start"], x["new"]) for x in prev if x["status"] in ("SURVIVED", "TIMEOUT-OR-KILLED")}
+        ms = [m for m in ms if (m["file"], m["line"], m["start"], m["new"]) in keep]
+        out_dir = out_dir + "/recheck"
     if limit:
         step = max(1, len(ms) // limit)
         ms = ms[::step][:limit]
